@@ -15,7 +15,8 @@ from lib import vlib
 
 LEVEL = "model_checking"
 PREFIXES = ["C18.", "Any.Crash"]
-CONFIGS = [("C18info", 1), ("C18status", 1), ("C11", 1), ("C04", 1), ("C02hist", 1), ("C03", 2), ("C05ref", 4), ("C07", 4)]
+# (configuration, sampling stride in the quick tier; 0 = thorough tier only)
+CONFIGS = [("C18info", 1), ("C18status", 1), ("C11", 1), ("C04", 1), ("C02hist", 1), ("C03", 2), ("C05ref", 0), ("C07", 6)]
 
 
 def via_trait(b):
@@ -45,6 +46,8 @@ def run(chk):
     thorough = chk.tier == "thorough"
     rnd = random.Random(chk.seed)
     for cfgname, stride in CONFIGS:
+        if stride == 0 and not thorough:
+            continue
         plans = cerlib.model_check(chk, cfgname, prefixes=PREFIXES)
         if plans is None:
             continue
@@ -57,7 +60,7 @@ def run(chk):
             both.append(via_trait(b))
         cerlib.replay_and_validate(chk, both, "C18-" + cfgname, PREFIXES, isolate=True)
     cerlib.finish_cov(chk, "each behaviour of the C02-C05/C07/C11 configurations and getInfo in every configuration, run through the direct method and through the trait (adjacent runs); "
-                           "quick tier samples 1/4 of C05/C07 and 1/2 of C03",
+                           "quick tier samples 1/6 of C07 and 1/2 of C03 and leaves C05ref to the thorough tier",
                       False, "conformance over the behaviour sets of the other ceremony checks; termination is observed, not proved")
 
 
